@@ -43,6 +43,7 @@ func checkC02(c *Ctx) {
 		c.checkCase(ruleP2, g, sp)
 	}
 	c.ackAcceptsTypes()
+	c.waitAcceptsRequests()
 	c.releaseLoopContract("C02")
 	c.dedupInsert()
 	c.terminalTables()
